@@ -73,6 +73,9 @@ type attPlan struct {
 	// the retry is sent again after it and no 0x1212 precedes it, so the expected answers do not depend on whether a
 	// server keeps or forgets what it held before the retry.
 	ReAnnounce int `json:"reannounce_after_chunks,omitempty"`
+	// BigWrites: writes are not capped at 60 000 bytes (a sender with a large socket buffer): with chunks of 64 KiB and more the
+	// server's 100 KiB read buffer is filled to the last byte by single reads
+	BigWrites bool `json:"big_writes,omitempty"`
 }
 
 // files larger than this are "sparse" in the plans: announced with their full size, only a few chunks sent
@@ -301,8 +304,12 @@ func attWrites(p *attPlan, b *attBuilt) [][]byte {
 	add := func(to int) {
 		for to > prev {
 			n := to - prev
-			if n > 60000 {
-				n = 60000
+			lim := 60000
+			if p.BigWrites {
+				lim = 1 << 20 // writes far larger than the server's read buffer: its reads come back completely full
+			}
+			if n > lim {
+				n = lim
 			}
 			writes = append(writes, b.stream[prev:prev+n])
 			prev += n
@@ -565,6 +572,10 @@ func attGenPlan(g gen.G, idx int, gaps bool) *attPlan {
 		cs := 1 + g.Intn(4096)
 		if g.Chance(1, 3) || many {
 			cs = 1 + g.Intn(64)
+		} else if !escHeavy && g.Chance(1, 10) {
+			// the chunk sizes real terminals use: 64 KiB and its neighbours, 32 KiB, 100 000 bytes (limits sized for "62-byte
+			// header + 64 KiB" meet the HLJ dialect's longer headers here)
+			cs = core.Pick(g.Rand, []int{65536, 65535, 65537, 32768, 100000, 65536 - 62, 65536 + 62})
 		}
 		size := 1 + g.Intn(3*cs)
 		if g.Chance(1, 8) {
@@ -669,6 +680,7 @@ func attGenPlan(g gen.G, idx int, gaps bool) *attPlan {
 		f.PostDup = g.Chance(1, 4)
 		p.Files = append(p.Files, f)
 	}
+	p.BigWrites = g.Bool()
 	if p.Order == "" && len(p.Files[0].Chunks) > 1 && g.Chance(1, 5) {
 		p.ReAnnounce = 1 + g.Intn(len(p.Files[0].Chunks)-1)
 	}
